@@ -22,19 +22,29 @@ deriving Repr, DecidableEq, Inhabited
 def Cfg.wf (c : Cfg) : Prop := (c.ch = 1 ∨ c.ch = 2) ∧ 1 ≤ c.sr ∧ c.sr ≤ 0x7FFFFFFF ∧ c.name.length = 17
 instance (c : Cfg) : Decidable c.wf := by unfold Cfg.wf; infer_instance
 
-/-- `(uint16_t) psf->sf.samplerate` -/
-def quant (sr : Nat) : Nat := sr % 65536
+/-- `(uint16_t) SF_MIN (psf->sf.samplerate, 0xFFFF)`: rates above 65535 are stored as 65535 -/
+def quant (sr : Nat) : Nat := min sr 0xFFFF
+
+/-- the rule before the repair of KF-RATE16-WRAP: `(uint16_t) psf->sf.samplerate` -/
+def quantOld (sr : Nat) : Nat := sr % 65536
 
 /-- mpc2k_write_header: "e11b" 1 4 name, "e111" 100 0 ((channels - 1) & 1), "et4888" 0 frames frames frames (the
-    three sf_count_t values are cut to 32 bits), "e112" 0 1 (uint16_t) samplerate -/
-def hdr (c : Cfg) (f : Fields) : List Byte :=
+    three sf_count_t values are cut to 32 bits), "e112" 0 1 (uint16_t) min (samplerate, 0xFFFF) -/
+def hdrQ (q : Nat) (c : Cfg) (f : Fields) : List Byte :=
   [1, 4] ++ c.name ++ [100, 0, (c.ch - 1) % 2] ++ le32 0 ++ le32 f.frames ++ le32 f.frames ++ le32 f.frames ++
-  [0, 1] ++ le16 c.sr
+  [0, 1] ++ le16 q
+
+def hdr (c : Cfg) (f : Fields) : List Byte := hdrQ (quant c.sr) c f
 
 /-- `calc_length`: filelength, dataoffset = 42, datalength, frames = datalength / (bytewidth * channels) -/
-def fmt (c : Cfg) : Fmt :=
-  { hdrLen := 42, bw := 2 * c.ch, hdr := hdr c,
+def fmtQ (q : Nat → Nat) (c : Cfg) : Fmt :=
+  { hdrLen := 42, bw := 2 * c.ch, hdr := hdrQ (q c.sr) c,
     recalc := fun n _ => { filelength := n, datalength := (n : Int) - 42, frames := ((n : Int) - 42) / ((2 * c.ch : Nat) : Int) } }
+
+def fmt (c : Cfg) : Fmt := fmtQ quant c
+
+/-- the writer before the repair of KF-RATE16-WRAP -/
+def fmtOld (c : Cfg) : Fmt := fmtQ quantOld c
 
 /-- mpc2k_read_header + pcm_init + validate_sfinfo on a file of at least 42 bytes that `guess_file_type` called MPC2K -/
 def readHeader (bs : List Byte) : ParseRes :=
